@@ -341,6 +341,11 @@ class Exec(ExprMixin, AccessMixin, CallMixin, StmtMixin, SpecMixin, HeapMixin, O
         ctx.obligations.append(Obligation('%s/lock.every_acquired_lock_is_released_at_exit' % ctx.unit, 'lock', list(s.pc), z3.BoolVal(False), '',
                                           {'msg': 'locks held at exit: %s (at entry: %s)' % (list(s.locks), list(old.locks))}))
       self.check_frame(old, s, con)
+    normal = len([1 for _s, _r in results if not isinstance(_r, Raised)])
+    if normal == 0 and con.ensures_ and not con.coroutine_ and not con.opts.get('never_returns'):
+      # every path ends in an exception (or was lost): the postconditions would hold vacuously
+      ctx.covers.append(('%s/cover.some_path_returns_normally (no path reaches a normal return: the ensures clauses are vacuous)' % ctx.unit,
+                         [z3.BoolVal(False)]))
     ctx.paths += paths
     if paths == 0 and not (con.coroutine_ and getattr(ctx, 'co_cuts', 0) > 0):
       ctx.obligations.append(Obligation('%s/cover.paths' % ctx.unit, 'cover', [], z3.BoolVal(False), '',
@@ -581,7 +586,8 @@ class Exec(ExprMixin, AccessMixin, CallMixin, StmtMixin, SpecMixin, HeapMixin, O
         continue
       oldarr = old.heap.get(key)
       if oldarr is None:
-        oldarr = z3.Const('H0_%s_%s' % key, st.heap[key].sort())
+        from pyvc.engine4 import base_array
+        oldarr = base_array(st.heap[key])
       r = fresh('fr', z3.IntSort())
       excl = [r != t for t in slots.get(key, [])]
       goal = z3.ForAll([r], z3.Implies(z3.And(r < ALLOC_BASE, r != 0, *excl),
@@ -626,7 +632,8 @@ class Exec(ExprMixin, AccessMixin, CallMixin, StmtMixin, SpecMixin, HeapMixin, O
     refs, preds = containers
     oldarr = old.heap.get(key)
     if oldarr is None:
-      oldarr = z3.Const('H0_%s_%s' % key, st.heap[key].sort())
+      from pyvc.engine4 import base_array
+      oldarr = base_array(st.heap[key])
     r = fresh('fr', z3.IntSort())
     cond = [r < bound, r != 0] + [r != t for t in refs] + [z3.Not(pr(r)) for pr in preds]
     goal = z3.ForAll([r], z3.Implies(z3.And(*cond), z3.Select(st.heap[key], r) == z3.Select(oldarr, r)))
